@@ -452,6 +452,9 @@ def cli_traces(chk, plans, fmts=("json",), sub_every=0):
     for i, plan in enumerate(plans):
         opt = OPTION_SETS[i % len(OPTION_SETS)] if plan["fault"] in ("none", "generator") else OPTION_SETS[chk.rng.randrange(3)]
         fmt = fmts[i % len(fmts)]
+        if "ini" in fmts and chk.rng.random() < 0.5 and not any(a.get("share") for a in plan["args"]) and \
+                all(a["kind"] in ("object", "lookup", "malformed", "badlookup", "missing", "scalar", "noglob") for a in plan["args"]):
+            fmt = "ini"         # plans that can be spelled as ini files are (half of the time): that loader has its own failure paths
         if plan["fault"] == "encode":
             opt, fmt = ENCODE_OPT, "json"
         if any(a["kind"] == "nonstrkey" for a in plan["args"]) and plan["fault"] == "none" and chk.rng.random() < 0.5:
